@@ -73,7 +73,12 @@ def gen_case(rng, idx, tier):
     # revisit bins: make values cluster (few bins, many samples)
     s = [[ctl.dy(rng, -6, 6, 4) for _ in range(T + 1)] for _ in dims]
     runs = sorted(rng.sample(range(2, T - 1), 2)) if opts["newruns"] else []
-    return dict(idx=idx, dims=dims, hist=hist, s=s, T=T, runs=runs, **opts)
+    # a stop and a restart from the state file (text or binary) in a fresh module: the stored counts and gradients and the
+    # applied force continue as if the run had not been interrupted
+    restart = None
+    if idx % 3 == 1:
+        restart = (rng.choice([k for k in range(8, T - 8) if k not in runs]), rng.choice(["text", "binary"]))
+    return dict(idx=idx, dims=dims, hist=hist, s=s, T=T, runs=runs, restart=restart, **opts)
 
 
 def config(case):
@@ -103,9 +108,16 @@ def config(case):
 
 
 def scenario(case):
-    s = ctl.header(case["tfm"], extra="dt 1.0\ntemp %s" % ("300.0" if case.get("jac") else "0.0"))
-    s += "emit atoms off\nmodule\nconfig <<EOC\n" + config(case) + "EOC\ninit\n"
+    rst = case.get("restart")
+    hdr = ctl.header(case["tfm"], extra="dt 1.0\ntemp %s%s" % ("300.0" if case.get("jac") else "0.0",
+                                                               ("\nenv COLVARS_BINARY_RESTART %d" % (1 if rst[1] == "binary" else 0)) if rst else ""))
+    s = hdr + "emit atoms off\nmodule\nconfig <<EOC\n" + config(case) + "EOC\ninit\n"
+    last_lines = ""
     for t in range(case["T"] + 1):
+        if rst and t == rst[0] + 1:
+            # stop after step rst[0]; a fresh module reads the state and repeats that step
+            s += "save c04st.colvars.state\ndelete\n" + hdr + "emit atoms off\nmodule\nconfig <<EOC\n" + config(case) + "EOC\ninprefix c04st\ninit\n"
+            s += last_lines + "step\nmark repeat\n"
         kw = {}
         f = [[0.0, 0.0, 0.0] for _ in range(ctl.NATOMS)]
         for d, h, sv in zip(case["dims"], case["hist"], case["s"]):
@@ -122,8 +134,8 @@ def scenario(case):
         if t in case["runs"]:
             # a new run statement: the step just done is repeated
             s += "newrun\nstep\nmark repeat\n"
-        s += ctl.pos_line(**kw) + "\n"
-        s += "fext " + " ".join(fnum(x) for q in f for x in q) + "\n"
+        last_lines = ctl.pos_line(**kw) + "\n" + "fext " + " ".join(fnum(x) for q in f for x in q) + "\n"
+        s += last_lines
         s += "step\nsavestr\n"
     return s
 
@@ -163,9 +175,10 @@ def check_case(c, case, ev, sp):
 
     cnt = [0] * ncells
     sm = [[0.0] * nd for _ in range(ncells)]   # sum of samples per bin
-    key = "nd%d:%s:%s%s%s%s" % (nd, case["tfm"], "periodic" if case["periodic"] else "open",
-                                ":other=" + case["other"] if case["other"] else "", "" if case["apply"] else ":noapply",
-                                ":jacobian_" + case["jac"] if case.get("jac") else "")
+    key = "nd%d:%s:%s%s%s%s%s" % (nd, case["tfm"], "periodic" if case["periodic"] else "open",
+                                  ":other=" + case["other"] if case["other"] else "", "" if case["apply"] else ":noapply",
+                                  ":jacobian_" + case["jac"] if case.get("jac") else "",
+                                  ":restart_" + case["restart"][1] if case.get("restart") else "")
     KT = 0.001987191 * 300.0
 
     def jac_term(t_):
